@@ -12,8 +12,8 @@ TRUSTED_BASE = ['keyword matching is checked against Python\'s re on the regex K
                 'the specification used by the check is three-valued there: must pass if the literal text occurs exactly, must not pass if it does not occur even caselessly, unconstrained in between']
 ASSUMPTIONS = ['keywords use ASCII letters for case variation']
 
-BARE = ['error', 'ERROR', 'warn', 'a.b', 'x-y', 'foo_bar', 'a*b', 'a*', '*b', 'GET', '/index', 'user@host', '100%', 'c++', 'NOTHING', 'ORDER', 'ANDROID', 'k:v', '$5', '#tag', '^x']
-QUOTED = ['two words', 'a*b', 'x(y)', '[z]', 'a.b', 'Error', 'q"uote', "it's", ' lead', 'trail ', 'a|b', 'c\\d', '{}', 'a  b', 'AND', 'é']
+BARE = ['error', 'ERROR', 'warn', 'a.b', 'x-y', 'foo_bar', 'a*b', 'a*', '*b', 'GET', '/index', 'user@host', '100%', 'c++', 'NOTHING', 'ORDER', 'ANDROID', 'k:v', '$5', '#tag', '^x', '*', '*', '**']
+QUOTED = ['two words', 'a*b', 'x(y)', '[z]', 'a.b', 'Error', 'q"uote', "it's", ' lead', 'trail ', 'a|b', 'c\\d', '{}', 'a  b', 'AND', 'é', '', 'a\\"b', 'end\\']
 
 
 # keywords whose occurrences overlap in a line (one contains, or shares an end with, another)
@@ -111,6 +111,8 @@ def explore(ctx):
                     k = k.replace(' ', '\t')
                 elif r < 0.5:
                     k = k[:-1]
+                elif r < 0.6:
+                    k = k.replace('\\', '')          # the same text without its backslashes must NOT match a quoted keyword that has them
                 parts.append(k)
             if short:
                 lines.append(rng.choice(['', '', ' ', '-']).join(rng.choice(fam).replace('*', rng.choice(['', 'y'])) for _ in range(rng.randint(1, 2))) + '\n')
@@ -180,7 +182,7 @@ def explore(ctx):
             nontrivial.add(c.query + '\0' + c.inp.decode('utf8', 'replace'))
     cov = {
         'evaluations': len(cases), 'distinct_nontrivial': len(nontrivial),
-        'rule': 'filter ASTs (depth <= 3, 1..3 juxtaposed terms) over bare keywords (regex metacharacters, * in every position, reserved words as substrings) and quoted keywords; '
+        'rule': 'filter ASTs (depth <= 3, 1..3 juxtaposed terms) over bare keywords (regex metacharacters, * in every position and `*` alone as an operand of AND/OR/NOT, reserved words as substrings) and quoted keywords (also empty, with backslash-quote, ending in a backslash); '
                 '3..14 tagged lines built from the keywords (present, case-flipped, wildcard gap filled, whitespace varied, truncated); one case in five uses keywords whose occurrences overlap (conn/connection, abc/bcd) on untagged lines that are just one or two keywords glued together, the last one sometimes without a newline; observed: the printed lines and the count; '
                 'non-trivial = >=2 keywords with both a passing and a rejected line',
         'samples': [{'query': c.query, 'input_lines': c.lines[:4]} for c in cases[2:5]],
